@@ -455,7 +455,10 @@ impl SvgElement {
                     if let Some(sz) = ctx.get_element_size(el)? {
                         p.update_size(&sz);
                     }
-                    if let Some((ox, oy)) = self.use_target_origin(ctx)? {
+                    // (x / y alone are the move as written: nothing to work out)
+                    let placed_by_box =
+                        p.xmax.is_some() || p.cx.is_some() || p.ymax.is_some() || p.cy.is_some();
+                    if let (true, Some((ox, oy))) = (placed_by_box, self.use_target_origin(ctx)?) {
                         if ox != 0. || oy != 0. {
                             p.xmin = p.xmin.map(|x| x + ox);
                             p.ymin = p.ymin.map(|y| y + oy);
